@@ -348,7 +348,7 @@ theorem keyStep_applyOp {size acc : Nat} {d : Value} {op : Op} {d' : Value} {acc
     exact ⟨ms, [], hres, hobj, KeyStep.refl _, List.Sublist.refl _⟩
   obtain ⟨hpath, hmove⟩ := hna htest
   cases hp : parsePointer op.path with
-  | none => rw [applyOp_badPointer hp] at h; cases h
+  | none => exact absurd h (applyOp_badPointer_ne_ok hp _)
   | some path =>
   have hnp := hpath path hp
   cases path with
